@@ -224,6 +224,7 @@ type Variant struct {
 	Rule      string `json:"rule"`
 	Construct string `json:"construct"` // substring expected in the reported construct
 	Note      string `json:"note"`
+	Patch     string `json:"-"` // path of a unified diff applied in memory instead of File/Old/New
 }
 
 func readVariant(path string) (*Variant, error) {
@@ -257,7 +258,15 @@ func loadCtx(repo, arch string, variant *Variant, controls bool) (*Ctx, error) {
 			return nil
 		})
 	}
-	if variant != nil {
+	if variant != nil && variant.Patch != "" {
+		files, err := applyPatchOverlay(repo, variant.Patch)
+		if err != nil {
+			return nil, fmt.Errorf("%w: %v", errStaleVariant, err)
+		}
+		for k, v := range files {
+			overlay[k] = v
+		}
+	} else if variant != nil {
 		p := filepath.Join(repo, variant.File)
 		b, err := os.ReadFile(p)
 		if err != nil {
